@@ -119,10 +119,15 @@ def mc_configs(pid, tier):
         ("mc_crash_dirs", consts(pid, OpKinds={"write_file", "sync_dir", "rename", "remove_file", "create_dir", "remove_dir", "crash"},
                                  FilePaths={"/a", "/d/a"}, DirPaths={"/d"}, RenFiles={"/a", "/d/a"},
                                  ViewSet={"/", "/a", "/d", "/d/a"}, MaxLen=5 if q else 6, MaxCrash=2)),
+        ("mc_crash_nested", consts(pid, OpKinds={"create_dir", "create_dir_all", "sync_dir", "remove_dir", "write_file", "remove_file", "crash"},
+                                   FilePaths={"/d/e/a"}, DirPaths={"/d", "/d/e"}, ViewSet={"/", "/d", "/d/e", "/d/e/a"},
+                                   MaxLen=5 if q else 7, MaxCrash=2)),
         ("mc_crash_bgsync", consts(pid, SyncKnob=True, OpKinds={"write_file", "open", "write", "set_len", "sync_all", "sync_dir",
                                                                  "rename", "remove_file", "crash"},
                                    RenFiles={"/a", "/b"}, OpenModes={"rw"}, MaxLen=4 if q else 5, MaxCrash=1)),
     ]
+    if q:   # the gen_* runs of the quick tier check the same invariants on the same alphabets
+        cfgs = [c for c in cfgs if c[0] not in ("mc_crash_nested", "mc_crash_dirs")]
     return cfgs
 
 
@@ -182,6 +187,11 @@ def gen_configs(pid, tier):
                                   FilePaths={"/a", "/d/a"}, DirPaths={"/d"}, RenFiles={"/a", "/d/a"},
                                   ViewSet={"/", "/a", "/d", "/d/a"}, MaxLen=5 if q else 6, MaxCrash=2),
          "edges", True, [("std", 2)]),
+        # nested directories: two and three levels pending at once (create_dir_all and successive create_dir),
+        # sync_dir top-down and bottom-up, files in the deepest directory
+        ("gen_crash_nested", consts(pid, OpKinds={"create_dir", "create_dir_all", "sync_dir", "remove_dir", "write_file", "crash"},
+                                    FilePaths={"/d/e/a"}, DirPaths={"/d", "/d/e"}, ViewSet={"/", "/d", "/d/e", "/d/e/a"},
+                                    MaxLen=6 if q else 7, MaxCrash=1), "edges", True, [("mix", 1)]),
     ]
     return cfgs
 
@@ -192,7 +202,7 @@ def random_configs(pid, tier, seed):
         cfgs = [dict(runs=120 if q else 800, len=30, rich=1, dir_rename=1, crash=0, fe="mix", maxh=2),
                 dict(runs=60 if q else 400, len=40, rich=0, dir_rename=0, crash=0, fe="std", maxh=2)]
     else:
-        cfgs = [dict(runs=100 if q else 800, len=30, rich=1, dir_rename=0, crash=8, fe="mix", maxh=2, knob=0),
+        cfgs = [dict(runs=100 if q else 800, len=30, rich=2, dir_rename=0, crash=8, fe="mix", maxh=2, knob=0),
                 dict(runs=50 if q else 400, len=40, rich=0, dir_rename=0, crash=12, fe="tokio", maxh=2, knob=0),
                 dict(runs=60 if q else 600, len=30, rich=1, dir_rename=0, crash=10, fe="std", maxh=2, knob=1)]
     return [dict(c, seed=seed * 131 + i) for i, c in enumerate(cfgs)]
@@ -450,6 +460,36 @@ def replay_behaviours(ck, fam, pid, name, c, bpath, nbeh, fe, hosts, w, cap_know
         d0 = s["drift"][0]
         log(f"[{pid}] {name}: drift: {s['drift_count']} behaviours differ from the ImplSpec prediction but the PropSpec accepts "
             f"them; first: {behstr(d0['behaviour']) if 'behaviour' in d0 else d0}")
+        # The transition cover reaches every model state behind ONE history; a history on which the code left the
+        # model ends in a state the model does not know, so its continuations are not covered any more: the drifted
+        # histories are extended by every sequence of <= 2 directory syncs (and, C07, a crash) and judged by FsRef alone.
+        dl = [d for d in s["drift"] if "behaviour" in d]
+        dpath = os.path.join(w, f"{name}.drift.ndjson")
+        with open(dpath, "w") as f:
+            f.write("\n".join(json.dumps(d["behaviour"]) for d in dl) + "\n")
+        xpath = os.path.join(w, f"{name}.drift.trace.ndjson")
+        dirs = sorted(c["DirPaths"] | {"/"})
+        out = vlib.run_driver("fs", ["extend", f"in={dpath}", f"out={xpath}", "ps=" + ",".join(ps), "dirs=" + ",".join(dirs), "depth=2",
+                                     f"maxh={c['MaxH']}", f"judge={c['Judge']}", f"fe={fe}"])
+        rejects, _l, _k, _d, _dr, pr, _ir = validate_trace(pid, xpath, c["MaxH"], ps, f"{pid}_{name}_drift", impl=False,
+                                                           knob=c.get("SyncKnob", False))
+        ck.add_tlc(pr, f"trace_prop_drift_{name}")
+        log(f"[{pid}] {name}: drift extension: {out.strip()} from {len(dl)} drifted behaviours -> FsRefTrace rejects {len(rejects)}")
+        xr = {}
+        with open(xpath) as f:
+            for line in f:
+                e = json.loads(line)
+                if e["ev"] == "op":
+                    xr.setdefault(e["run"], []).append(e)
+        for n, ((run, i), clause) in enumerate(sorted(rejects.items())):
+            if n < 3:
+                evs = xr.get(run, [])
+                ck.violation({"kind": "drift-extension", "property": pid, "config": name, "consts": jsonable(c), "fe": fe,
+                              "ops": [e["op"] for e in evs], "text": " ; ".join(opstr(e["op"]) for e in evs), "step": i,
+                              "violated_clause": clause, "observed": evs[i - 1]["res"] if 0 < i <= len(evs) else None,
+                              "why": "the code left the frozen model FsImpl on this history (drift) and a continuation of it is rejected by FsRef"})
+            else:
+                ck.violations += 1
     # error kinds: own finding identity
     for km in s["kind_mismatch"]:
         judge_kind(ck, fam, pid, name, km["what"], km["count"], km["predicted_by_impl"], c, fe, hosts)
@@ -685,6 +725,21 @@ def do_replay(ck, fam, path):
     elif rp["kind"] == "random":
         rc = rp["cfg"]
         run_random(ck, fam, pid, rc, w, 0, True)
+    elif rp["kind"] == "drift-extension":
+        c = unjson(rp["consts"])
+        ps = sorted(c["ViewSet"])
+        host_ops = rp["ops"]
+        tpath = os.path.join(w, "ext.trace.ndjson")
+        # the recorded run is re-executed as a one-line random-free trace: prefix as behaviour, no further extension
+        beh = {"h": [{"op": o, "rr": {"ok": True}} for o in host_ops[:-1]], "last": {"op": host_ops[-1]}}
+        bpath = os.path.join(w, "ext.ndjson")
+        open(bpath, "w").write(json.dumps(beh) + "\n")
+        vlib.run_driver("fs", ["extend", f"in={bpath}", f"out={tpath}", "ps=" + ",".join(ps), "dirs=/", "depth=0", "exact=1",
+                               f"maxh={c['MaxH']}", f"judge={c['Judge']}", f"fe={rp.get('fe', 'std')}"])
+        rejects, _l, _k, _d, _dr, pr, _ir = validate_trace(pid, tpath, c["MaxH"], ps, f"{pid}_replay_ext", impl=False,
+                                                           knob=c.get("SyncKnob", False))
+        for (run, i), clause in rejects.items():
+            ck.violation(dict(rp, violated_clause=clause, step=i))
     elif rp["kind"] == "torn":
         # re-execute the history under the recorded seed schedule (all seeds) and let TLC judge every image
         c = unjson(rp["consts"])
